@@ -16,7 +16,7 @@ pub fn steps_duration(w: &[Step]) -> u64 {
 pub fn work_of_case(case: &Case, id: u32) -> Option<&Vec<Step>> {
     let (c, o) = ((id / 1000) as usize, (id % 1000) as usize);
     match case.clients.get(c)?.get(o)? {
-        ClientOp::Send { work, .. } | ClientOp::Call { work, .. } | ClientOp::CallDrop { work, .. } | ClientOp::SendRepoll { work, .. } => Some(work),
+        ClientOp::Send { work, .. } | ClientOp::Call { work, .. } | ClientOp::CallDrop { work, .. } | ClientOp::SendRepoll { work, .. } | ClientOp::SendDrop { work, .. } => Some(work),
         _ => None,
     }
 }
